@@ -8,7 +8,7 @@ from props import faces  # noqa: E402
 from pyvc.state import State  # noqa: E402
 from pyvc.sorts import V, vbool, vint  # noqa: E402
 
-SIDE = ("severity", "results", "analysis", "externals", "pickled_api", "loader")
+SIDE = ("severity", "results", "analysis", "externals", "pickled_api", "loader", "hooks")
 OPS = {"__lt__": lambda a, b: a < b, "__gt__": lambda a, b: a > b, "__eq__": lambda a, b: a == b,
        "__ge__": lambda a, b: a >= b, "__le__": lambda a, b: a <= b}
 
